@@ -514,6 +514,6 @@ example :
     let t : Tx := ⟨1, false, [⟨0, 0, "u0", 5, 0, false⟩], [⟨"u1", 3, 0⟩, ⟨"u2", 0, 0⟩, ⟨"$", 2, 0⟩], [], []⟩
     let s : St := { U := [((0, 0), ⟨"u0", 5, 0⟩)] }
     UNodup (applyTx s t).U ∧ Applied (applyTx s t) t :=
-  ⟨by decide, applied_of_applyTx _ 0 _ (by decide) (by decide)⟩
+  ⟨by unfold UNodup; decide, applied_of_applyTx _ 0 _ (by decide) (by decide)⟩
 
 end XV.C02
